@@ -85,6 +85,13 @@ partial def exprOf (fk : Array FKind) (j : Json) : Except String Expr := do
       | _, _, _ => pure (.bin op l r)
   | "not" => pure (.not (← exprOf (← j.getObjVal? "e")))
   | "psel" => pure (.psel (← exprOf (← j.getObjVal? "e")) (← getN j "hi") (← getN j "lo"))
+  | "dynx" => do
+      -- a reference to a dynamic block used as a term: `ExprDynRefModel.build` = conjunction of the block's
+      -- statements (expression statements of width 1; the harness substitutes the block of the class by name)
+      let es ← (← getA j "es").mapM exprOf
+      match es with
+      | [] => pure (.reset (.lit 1 false 1))
+      | e :: rest => pure (.reset (rest.foldl (fun acc x => .bin .and acc x) e))
   | "in" | "notin" => do
       let lhs ← exprOf (← j.getObjVal? "e")
       let items ← (← getA j "rl").mapM fun r => do
